@@ -14,6 +14,11 @@
        match(n, <<A0, A1, Ad>>)     match this.n { 0 => {A0} 1 => {A1} _ => {Ad} }
        finish(ops)                  finish { ops }                        (last statement of its block)
 
+       stray(op, via)               a finish-only statement (emit/create/delete/finish-function call)
+                                    *outside* a finish block: inline, or inside a pure function that
+                                    the block calls.  The compiler is expected to reject these; they
+                                    are generated to confirm that (see StrayPrograms below)
+
    where every `c` / `n` is the value the condition takes in this run (the harness passes it
    in a command field of its own), and `ops` is a sequence of finish statements:
    emit / create / delete / update / a finish-function call.
@@ -43,6 +48,8 @@ CONSTANTS MaxStmts,     \* statements per policy block (nested ones count)
           OpsMenu,      \* set of finish-block bodies (sequences of op records)
           RecallMenu,   \* set of recall blocks used when the policy block can recall
           MatchArms,    \* set of blocks allowed as match arms (keeps the enumeration finite and small)
+          StrayBase,    \* base programs into which a misplaced finish-only statement is inserted ({} = none)
+          StrayOps,     \* the finish-only statements inserted (op records)
           Enumerate     \* TRUE: Init ranges over the set of all programs within the bounds;
                         \* FALSE: programs are drawn by random derivation (MC module, tlc -simulate)
 
@@ -120,6 +127,24 @@ Programs ==
   UNION {{[policy |-> p, recall |-> r] : r \in (IF CanRecallB(p) THEN RecallMenu ELSE {<<>>})} :
           p \in PolicyBlocks}
 
+(* Misplaced finish-only statements.  InsB(b, x): b with x inserted at one position of any
+   nesting level (never behind a finish). *)
+RECURSIVE InsB(_, _)
+InsS(s, x) ==
+  CASE s.t = "if"    -> {[s EXCEPT !.a = a2] : a2 \in InsB(s.a, x)}
+                        \cup {[s EXCEPT !.b = b2, !.els = TRUE] : b2 \in InsB(s.b, x)}
+    [] s.t = "match" -> UNION {{[s EXCEPT !.arms[i] = a2] : a2 \in InsB(s.arms[i], x)} : i \in 1..3}
+    [] OTHER         -> {}
+InsB(b, x) ==
+  {SubSeq(b, 1, i) \o <<x>> \o SubSeq(b, i + 1, Len(b)) :
+      i \in {j \in 0..Len(b) : j < Len(b) \/ b = <<>> \/ b[Len(b)].t # "finish"}}
+  \cup UNION {{[b EXCEPT ![i] = s2] : s2 \in InsS(b[i], x)} : i \in 1..Len(b)}
+StrayStmts == {[t |-> "stray", op |-> o, via |-> v] : o \in StrayOps, v \in {"inline", "function"}}
+StrayPrograms ==
+  UNION {UNION {{[policy |-> q, recall |-> p.recall] : q \in InsB(p.policy, x)}
+                \cup (IF CanRecallB(p.policy) THEN {[policy |-> p.policy, recall |-> r] : r \in InsB(p.recall, x)} ELSE {})
+                : x \in StrayStmts} : p \in StrayBase}
+
 ---------------------------------------------------------------------------------
 (* Finish operations -> MachineIO calls.  F is `fact F[k int]=>{v int}`; initially F[1]=>{1}. *)
 
@@ -150,13 +175,16 @@ ExecS(s, ctx, rb) ==
     [] s.t = "finish" -> Res(IF ctx = "policy" THEN "Normal" ELSE "Check", OpsIo(s.ops, ctx = "recall"), FALSE)
     [] s.t = "if"     -> ExecB(IF s.c THEN s.a ELSE s.b, ctx, rb)
     [] s.t = "match"  -> ExecB(s.arms[s.n + 1], ctx, rb)
+    [] s.t = "stray"  -> Res("fall", OpsIo(<<s.op>>, ctx = "recall"), FALSE)   \* what it would do if it were accepted
 ExecB(b, ctx, rb) ==
   IF b = <<>> THEN Res("fall", <<>>, FALSE)
   ELSE LET r == ExecS(b[1], ctx, rb) IN
-       IF r.exit = "fall" THEN ExecB(Tail(b), ctx, rb) ELSE r
+       IF r.exit = "fall"
+       THEN LET q == ExecB(Tail(b), ctx, rb) IN Res(q.exit, r.io \o q.io, q.rec)   \* r.io # <<>> only after a stray statement
+       ELSE r
 
 Run(p) == LET r == ExecB(p.policy, "policy", p.recall) IN
-            IF r.exit = "fall" THEN Res("Panic", <<>>, FALSE) ELSE r
+            IF r.exit = "fall" THEN Res("Panic", r.io, FALSE) ELSE r
 
 ---------------------------------------------------------------------------------
 (* Compiled form: instructions as records [i, ..]; targets are absolute addresses. *)
@@ -174,6 +202,7 @@ CompS(s, ctx, at, rt) ==
     [] s.t = "finish" ->                                                    \* Meta; ops..; Exit
          <<[i |-> "ops", ops |-> s.ops]>>
          \o <<[i |-> "exit", r |-> IF ctx = "policy" THEN "Normal" ELSE "Check"]>>
+    [] s.t = "stray"  -> <<[i |-> "ops", ops |-> <<s.op>>]>>
     [] s.t = "if"     ->                                                    \* <c>; Not; Branch(next); A; Jump(end); next: B; end:
          LET ca == CompB(s.a, ctx, at + 1, rt)
              cb == CompB(s.b, ctx, at + 1 + Len(ca) + 1, rt) IN
@@ -242,26 +271,32 @@ WfS(s, ctx) == CASE s.t = "if" -> WfB(s.a, ctx) /\ WfB(s.b, ctx) /\ (s.els <=> s
                  [] s.t = "match" -> \A i \in 1..3 : WfB(s.arms[i], ctx)
                  [] s.t = "recall" -> ctx = "policy"
                  [] s.t = "check" -> s.e = "panic" \/ ctx = "policy"
+                 [] s.t = "stray" -> FALSE
                  [] OTHER -> TRUE
 WfB(b, ctx) == \A i \in 1..Len(b) : WfS(b[i], ctx) /\ (b[i].t = "finish" => i = Len(b))
-WellFormed == /\ WfB(prog.policy, "policy") /\ WfB(prog.recall, "recall")
-              /\ SizeB(prog.policy) <= MaxStmts /\ DepthB(prog.policy) <= MaxDepth
+WellFormed == \/ prog \in StrayPrograms
+              \/ /\ WfB(prog.policy, "policy") /\ WfB(prog.recall, "recall")
+                 /\ SizeB(prog.policy) <= MaxStmts /\ DepthB(prog.policy) <= MaxDepth
 
-Init == prog \in Programs
+Init == prog \in Programs \cup StrayPrograms
 Next == UNCHANGED prog
 Spec == Init /\ [][Next]_prog
 
 Out == Run(prog)
 
 (* C30 on the reference semantics *)
+WellPlaced == WfB(prog.policy, "policy") /\ WfB(prog.recall, "recall")
 NoSideEffectsOnFailure ==
-  (Out.exit = "Panic" \/ (Out.exit = "Check" /\ ~Out.rec)) => Out.io = <<>>
+  WellPlaced => ((Out.exit = "Panic" \/ (Out.exit = "Check" /\ ~Out.rec)) => Out.io = <<>>)
 RecalledMarked ==
-  \A j \in 1..Len(Out.io) : Out.io[j].io = "effect" => (Out.io[j].recalled <=> Out.rec)
+  WellPlaced => \A j \in 1..Len(Out.io) : Out.io[j].io = "effect" => (Out.io[j].recalled <=> Out.rec)
 ExitShape ==
   /\ Out.exit \in {"Normal", "Check", "Panic"}
   /\ Out.exit = "Normal" => ~Out.rec
   /\ Out.exit = "Check" => Out.rec          \* in this language a Check exit only arises through a recall block
+(* the compile-time rejection of misplaced statements is load-bearing: were they accepted, the
+   run would have side effects on a failing path (checked over the whole stray set in the MC module) *)
+StrayBreaks(p) == LET o == Run(p) IN o.exit = "Panic" /\ o.io # <<>>
 (* the compiled form computes the reference semantics *)
 CompiledAgrees ==
   LET v == VmRun(prog) IN v.exit = Out.exit /\ v.io = Out.io /\ (v.rec <=> Out.rec)
@@ -271,7 +306,7 @@ CompiledAgrees ==
 SetToSeq(S) == LET RECURSIVE F(_)
                    F(T) == IF T = {} THEN <<>> ELSE LET m == CHOOSE x \in T : \A y \in T : x[1] <= y[1] IN <<m>> \o F(T \ {m})
                IN F(S)
-Replay == [policy |-> prog.policy, recall |-> prog.recall,
+Replay == [policy |-> prog.policy, recall |-> prog.recall, stray |-> ~WellPlaced,
            exit |-> Out.exit, rec |-> Out.rec, io |-> Out.io,
            facts |-> SetToSeq(Apply(Out.io, InitFacts))]
 Emit == PrintT("REPLAY " \o ToJson(Replay))
